@@ -198,7 +198,7 @@ def lookalikes(rep: Report) -> None:
             e.at(Point(**{a: 3, b: 5})), e.at(Point(**{b: 5, a: 3})), sorted(e._variable_names) == sorted([a, b]),
             sm.Partial(e, a).at(Point(**{a: 3, b: 5})), sm.Partial(e, b).at(Point(**{b: 5, a: 3})),
             sm.LocatedDifferential(e, Point(**{b: 5, a: 3})).component(a), va[1] == vb[1],
-            Point(**{a: 1}) == Point(**{b: 1}), len(Point(**{a: 1, b: 2})._coordinates),
+            Point(**{a: 1}) == Point(**{b: 1}), len(wire.coords(Point(**{a: 1, b: 2}))),
             Point(**{a: 1, b: 2}).coordinate(a), Point(**{a: 1, b: 2}).coordinate(b)))
         want = (11, 11, True, 2, 1, 2, False, False, 2, 1, 2)
         if got[0] != "ok" or tuple(got[1]) != want:
